@@ -31,6 +31,8 @@ def leaf_hash(kind, v):
         b = v[8:9].ljust(32, b'\0')
         c = v[9:41]
         return h2(h2(a, b), h2(c, ZERO))
+    if kind == 'unit':
+        return ZERO
     if kind == 'nestv':      # Vector<u64, U8>: two chunks, no length mixed in
         return h2(v[0:32], v[32:64])
     if kind == 'var':
